@@ -491,6 +491,21 @@ func (g *G) routes(s *m.Service, meth *m.Method, verb string) {
 					v = rapid.SampledFrom([]string{"POST", "PUT", "PATCH"}).Draw(t, "bverb2")
 				}
 			}
+			if g.p.AbsoluteRoutes && rapid.IntRange(0, 2).Draw(t, "absroute") == 0 {
+				// an absolute route ("//path") ignores the API and service base paths
+				rel := mk(fmt.Sprintf("%s/abs%d", base, i+1))
+				for try := 0; ; try++ {
+					key := v + " " + oraclePath(rel)
+					if !g.used["R:"+key] {
+						g.used["R:"+key] = true
+						break
+					}
+					rel = "/" + norm(s.Name) + fmt.Sprint(try) + rel
+				}
+				h.Routes = append(h.Routes, m.Route{Verb: v, Path: "/" + rel})
+				g.feat("absolute-route")
+				continue
+			}
 			h.Routes = append(h.Routes, m.Route{Verb: v, Path: unique(v, mk(fmt.Sprintf("%s/alt%d", base, i+1)))})
 		}
 		g.feat("multi-route")
